@@ -487,7 +487,11 @@ def r17_filter(ctx, rule1: str = 'R17.1', rule2: str = 'R17.2') -> List[Ob]:
     if kept_mask is None:
         kept_mask = keep
     ckm = C.canon_cond(kept_mask.slice, env)
-    cvar = kept_mask.slice.left
+    # the counter: the side of the comparison that is a zero-initialised local
+    zero_init = {n.targets[0].id for n in ast.walk(f.node) if isinstance(n, ast.Assign) and isinstance(n.targets[0], ast.Name)
+                 and isinstance(n.value, ast.Call) and ast.unparse(n.value.func) in ('np.zeros_like', 'np.zeros')}
+    sides = [kept_mask.slice.left, kept_mask.slice.comparators[0]]
+    cvar = next((x for x in sides if isinstance(x, ast.Name) and x.id in zero_init), kept_mask.slice.left)
     E = C.mul(C.atom(('n', thr)), C.sub(C.atom(('n', nname)), C.ONE))
     want = C.mk_cmp('gt', C.canon_expr(cvar, env), E)
     if ckm == want:
@@ -512,7 +516,15 @@ def r17_filter(ctx, rule1: str = 'R17.1', rule2: str = 'R17.2') -> List[Ob]:
             j = lp.target.id if isinstance(lp.target, ast.Name) else None
             skip = [s for s in lp.body if isinstance(s, ast.If) and len(s.body) == 1 and isinstance(s.body[0], ast.Continue)]
             skip_ok = len(skip) == 1 and C.canon_cond(skip[0].test, env) == C.mk_cmp('eq', C.atom(('n', i)), C.atom(('n', j)))
-            acc = [s for s in lp.body if isinstance(s, ast.AugAssign) and isinstance(s.target, ast.Name) and s.target.id == cname and isinstance(s.op, ast.Add)]
+            acc_scope = lp.body
+            if not skip:
+                # the same skip spelled as a guard: `if i != j: <accumulate>` (no else)
+                guards = [s for s in lp.body if isinstance(s, ast.If) and not s.orelse]
+                if len(guards) == 1 and len([s for s in lp.body if not isinstance(s, ast.Pass)]) == 1 and \
+                        C.canon_cond(guards[0].test, env) == C.mk_cmp('ne', C.atom(('n', i)), C.atom(('n', j))):
+                    skip_ok = True
+                    acc_scope = guards[0].body
+            acc = [s for s in acc_scope if (isinstance(s, ast.AugAssign) and isinstance(s.target, ast.Name) and s.target.id == cname and isinstance(s.op, ast.Add))]
             acc_ok = False
             if len(acc) == 1 and isinstance(acc[0].value, ast.Call):
                 a = [ast.unparse(x) for x in acc[0].value.args]
@@ -602,14 +614,30 @@ def r20_1_multiset(ctx, rule: str = 'R20.1') -> List[Ob]:
         var = hist.args[0].id
         init = [n for n in g.node.body if isinstance(n, ast.Assign) and isinstance(n.targets[0], ast.Name) and n.targets[0].id == var]
         loops = [n for n in g.node.body if isinstance(n, ast.For)]
-        init_ok = bool(init) and ast.unparse(init[0].value) == f"{q0}[0].spikes"
+        penv = _top_env_of(g)
+        penv.vals.pop(var, None)
+
+        def spikes_of(idx):
+            return C.atom(('attr', ('sub', ('n', q0), idx), 'spikes'))
+        try:
+            init_ok = bool(init) and C.canon_expr(init[0].value, penv) == spikes_of(C.ZERO)
+        except C.CanonError:
+            init_ok = False
         loop_ok = False
         if len(loops) == 1:
             lp = loops[0]
-            rng = ast.unparse(lp.iter) == f"range(1, len({q0}))"
-            i = lp.target.id if isinstance(lp.target, ast.Name) else None
-            body_ok = len(lp.body) == 1 and isinstance(lp.body[0], ast.Assign) and ast.unparse(lp.body[0].targets[0]) == var and \
-                ast.unparse(lp.body[0].value).replace('\n', '').replace(' ', '') == f"np.append({var},{q0}[{i}].spikes)"
+            try:
+                want_rng = C.mk_call('range', (C.ONE, C.atom(('call', 'len', (C.atom(('n', q0)),)))), ())
+                want_rng = want_rng if C.is_poly(want_rng) else C.atom(want_rng)
+                rng = C.canon_expr(lp.iter, penv) == want_rng
+                i = lp.target.id if isinstance(lp.target, ast.Name) else None
+                body = [b_ for b_ in lp.body if not isinstance(b_, ast.Pass)]
+                want_app = C.mk_call('np.append', (C.atom(('n', var)), spikes_of(C.atom(('n', i)))), ())
+                want_app = want_app if C.is_poly(want_app) else C.atom(want_app)
+                body_ok = len(body) == 1 and isinstance(body[0], ast.Assign) and ast.unparse(body[0].targets[0]) == var and \
+                    C.canon_expr(body[0].value, penv) == want_app
+            except C.CanonError:
+                rng = body_ok = False
             loop_ok = rng and body_ok
         good = init_ok and loop_ok
         detail = f"init={init_ok} loop={loop_ok}"
@@ -638,18 +666,43 @@ def r20_1_multiset(ctx, rule: str = 'R20.1') -> List[Ob]:
     lin = next((n for n in ast.walk(g.node) if isinstance(n, ast.Call) and C.dotted(n.func) == 'np.linspace'), None)
     good = False
     if lin is not None and hist is not None and len(lin.args) == 3:
-        a = [ast.unparse(x).replace(' ', '') for x in lin.args]
         bins_var = next((n.targets[0].id for n in g.node.body if isinstance(n, ast.Assign) and n.value is lin and isinstance(n.targets[0], ast.Name)), None)
+        penv = _top_env_of(g)
         try:
-            cpoly = C.canon_expr(lin.args[2], Env())
-            names_ = C.names_of(cpoly)
-            cnt_ok = len(names_) == 1 and cpoly == C.add(C.atom(('n', next(iter(names_)))), C.ONE)
+            lo, hi = C.canon_expr(lin.args[0], penv), C.canon_expr(lin.args[1], penv)
+            ts0 = C.atom(('attr', ('sub', ('n', q0), C.ZERO), 't_start'))
+            te0 = C.atom(('attr', ('sub', ('n', q0), C.ZERO), 't_end'))
+            # number of points = number of bins + 1, the number of bins being int((t_end - t_start) / bin_size)
+            cpoly = C.canon_expr(lin.args[2], penv)
+            bins_n = C.mk_call('int', (C.div(C.sub(te0, ts0), C.atom(('n', q1))),), ())
+            bins_n = bins_n if C.is_poly(bins_n) else C.atom(bins_n)
+            cnt_ok = cpoly == C.add(bins_n, C.ONE)
+            uses_bins = len(hist.args) >= 2 and (
+                (isinstance(hist.args[1], ast.Name) and hist.args[1].id == bins_var) or hist.args[1] is lin or
+                (bins_var is not None and C.canon_expr(hist.args[1], penv) == penv.vals.get(bins_var)))
+            good = lo == ts0 and hi == te0 and cnt_ok and uses_bins
         except C.CanonError:
-            cnt_ok = False
-        good = a[0] == f"{q0}[0].t_start" and a[1] == f"{q0}[0].t_end" and cnt_ok and \
-            len(hist.args) >= 2 and isinstance(hist.args[1], ast.Name) and hist.args[1].id == bins_var
+            good = False
     obs.append(ok(rule, t, g.loc(), construct=f"{gn}::bins") if good else violation(rule, t, g.loc(), key=f"{gn}::bins"))
     return obs
+
+
+def _top_env_of(fi) -> Env:
+    """state after the once-assigned, side-effect free top-level definitions of a function (`n = len(xs)` ...)"""
+    env = Env()
+    stores: Dict[str, int] = {}
+    for n in ast.walk(fi.node):
+        if isinstance(n, ast.Name) and isinstance(n.ctx, ast.Store):
+            stores[n.id] = stores.get(n.id, 0) + 1
+    _params = {a_.arg for a_ in fi.node.args.args + fi.node.args.kwonlyargs}
+    for st in fi.node.body:
+        if isinstance(st, ast.Assign) and len(st.targets) == 1 and isinstance(st.targets[0], ast.Name) \
+                and stores.get(st.targets[0].id) == 1 and st.targets[0].id not in _params:
+            try:
+                env.vals[st.targets[0].id] = C.canon_expr(st.value, env)
+            except C.CanonError:
+                pass
+    return env
 
 
 # ======================================================================================
@@ -688,6 +741,14 @@ def r13_3_reconcile_shape(ctx, rule: str = 'R13.3') -> List[Ob]:
     for m in mins:
         if m.args and isinstance(m.args[0], ast.Name) and m.args[0].id in srcs:
             got[srcs[m.args[0].id]] = m.func.id
+        elif m.args and isinstance(m.args[0], (ast.ListComp, ast.GeneratorExp)) and not m.args[0].generators[0].ifs \
+                and isinstance(m.args[0].generators[0].iter, ast.Name) and m.args[0].generators[0].iter.id == p0:
+            # the list of edges passed directly
+            e = ast.unparse(m.args[0].elt)
+            if e.endswith('.t_start'):
+                got['start'] = m.func.id
+            elif e.endswith('.t_end'):
+                got['end'] = m.func.id
     good = got == {'start': 'min', 'end': 'max'}
     obs.append(ok(rule, t, f.loc(), construct=f"{fn}::edges") if good else violation(rule, t, f.loc(), key=f"{fn}::global-edges", detail=str(got)))
     # (c) clipping: keeps t with  start - eps < t < end + eps
